@@ -105,18 +105,26 @@ func (pm *PeerManager) GetProcess(
 func (pm *PeerManager) getOrCreate(p peer.ID) *peerProcessInstance {
 	pqi, ok := pm.peerProcesses[p]
 	if !ok {
-		pq := pm.createPeerProcess(pm.ctx, p, pm.onQueueShutdown)
+		pqi = &peerProcessInstance{}
+		instance := pqi
+		pq := pm.createPeerProcess(pm.ctx, p, func(p peer.ID) {
+			pm.onQueueShutdown(p, instance)
+		})
+		pqi.process = pq
+		pm.peerProcesses[p] = pqi
 		if pprocess, ok := pq.(PeerProcess); ok {
 			pprocess.Startup()
 		}
-		pqi = &peerProcessInstance{0, pq}
-		pm.peerProcesses[p] = pqi
 	}
 	return pqi
 }
 
-func (pm *PeerManager) onQueueShutdown(p peer.ID) {
+// onQueueShutdown unregisters a process that has shut down -- but only that one: by the time
+// an old process finishes winding down, a successor may have been registered for the same peer
+func (pm *PeerManager) onQueueShutdown(p peer.ID, instance *peerProcessInstance) {
 	pm.peerProcessesLk.Lock()
 	defer pm.peerProcessesLk.Unlock()
-	delete(pm.peerProcesses, p)
+	if pm.peerProcesses[p] == instance {
+		delete(pm.peerProcesses, p)
+	}
 }
